@@ -36,6 +36,8 @@ def oracle(case, rec):
                 out.append(("trusted-true-accepted:" + k, f"trusted=True gave {e[k]}"))
         if e["gut_file"] != rec["gut"] or e["gut_file_str"] != rec["gut"]:
             out.append(("gut-file-differs", f"get_untrusted_types(data=) {rec['gut']} vs file= {e['gut_file']} / {e['gut_file_str']}"))
+        if e.get("gut_after_caller_edit", rec["gut"]) != rec["gut"]:
+            out.append(("gut-depends-on-history", f"get_untrusted_types(data=) returned {e['gut_after_caller_edit']} after the caller edited an earlier result; first answer was {rec['gut']}"))
         if not e["gut_sorted_unique"]:
             out.append(("unsorted-report", "get_untrusted_types(file=) not sorted/duplicate-free"))
     return out
